@@ -51,6 +51,15 @@ class ConvStackAdapter:
         def f2(q, u):
             return None
 
+        class Tbl:
+            # converters spelt as bound methods: `tbl.conv` is a new (but equal) object at every attribute access
+            def __init__(self, k):
+                self.k = k
+
+            def conv(self, q, u):
+                return q.amount * self.k if (q.unit is g1 and u is g2) else None
+        self.tbl3, self.tbl5 = Tbl(3), Tbl(5)
+
         def f3(q, u):
             return q.amount * 3 if (q.unit is g1 and u is g2) else None
 
@@ -58,7 +67,17 @@ class ConvStackAdapter:
             return q.amount * 5 if (q.unit is g1 and u is g2) else None
         self.gens = {'f1': f1, 'f2': f2, 'f3': f3, 'f4': f4}
         self.gname = {id(f): n for n, f in self.gens.items()}
+        self.bound = {'f3': self.tbl3, 'f4': self.tbl5}
         self.blocks = []       # open generators, innermost last
+
+    def gen_obj(self, name):
+        return self.bound[name].conv if name in self.bound else self.gens[name]
+
+    def gen_name(self, f):
+        for n, t in self.bound.items():
+            if f == t.conv:
+                return n
+        return self.gname.get(id(f), '?')
 
     def nontrivial(self, dst, label):
         return True
@@ -82,9 +101,9 @@ class ConvStackAdapter:
                 if arg == 'leave_exc' and r != 'left_exc':
                     return True, 'exception-swallowed'
             elif act == 'RegGen':
-                self.G.register_converter(self.gens[arg])
+                self.G.register_converter(self.gen_obj(arg))
             elif act == 'RemGen':
-                self.G.remove_converter(self.gens[arg])
+                self.G.remove_converter(self.gen_obj(arg))
             else:
                 raise RuntimeError('unknown action ' + act)
         except RuntimeError:
@@ -139,7 +158,7 @@ class ConvStackAdapter:
         if zok != (dst['probe'] != 0) or (zok is True and zamt != 0):
             devs.append(dict(sig='ConvStack:%s:zero' % act, what='0 BBB -> XXX: %s, specification: %s' % (
                 'converts' if zok is True else zok or 'UnitConversionError', 'zero XXX' if dst['probe'] else 'UnitConversionError')))
-        ggot = [self.gname.get(id(f), '?') for f in self.G.registered_converters()]
+        ggot = [self.gen_name(f) for f in self.G.registered_converters()]
         gwant = list(dst['gen'])[::-1]
         if ggot != gwant:
             devs.append(dict(sig='ConvStack:%s:genlist' % act, what='generic registered_converters() = %s, specification: %s' % (ggot, gwant)))
